@@ -21,6 +21,9 @@ use crate::engine::EmptyDomain;
 pub(crate) const NV: usize = 5;
 /// Hole capacity per domain.
 pub(crate) const NH: usize = 2;
+/// When set by a harness, an execution that needs more than NH holes in one domain ends there
+/// (bounded exploration) instead of failing the harness.
+pub(crate) static mut CUT_AT_HOLE_CAPACITY: bool = false;
 
 /// Harness-internal loops are written as straight-line code so that the `#[kani::unwind]` bound
 /// of a harness only has to cover the loops of the code under test.
@@ -258,6 +261,11 @@ mod backend {
         } else {
             // A harness whose propagator makes more holes than the store can hold is
             // reported as broken rather than silently truncated.
+            if unsafe { CUT_AT_HOLE_CAPACITY } {
+                // opt-in (stated in the harness' bounds): executions that need more holes are
+                // cut here, after every removal that fitted has been checked
+                kani::assume(dom.nholes < NH);
+            }
             assert!(dom.nholes < NH, "[HARNESS] shadow store hole capacity exceeded");
             if dom.nholes == 0 {
                 dom.h0 = v;
